@@ -270,6 +270,20 @@ def install(ctx):
             return opt_sym(okc, Ref(Loc(Cell(Str(s.b, z3.simplify(s.lo + a), z3.simplify(s.lo + b)), 'str.get'))))
         raise Unsupported('str::get with %r' % (rng,))
 
+    @M.reg('str::char_indices', 'str::chars')
+    def str_char_indices(ip, pc, args, dt):
+        s_ = as_str(args[0])
+        return CharIndicesM(s_, s_.lo, pc['method'] == 'char_indices')
+
+    @M.reg('str::split_at')
+    def str_split_at(ip, pc, args, dt):
+        s_ = as_str(args[0])
+        k = args[1].t
+        mid = z3.simplify(s_.lo + k)
+        if not ip.path.branch(z3.And(k >= 0, mid <= s_.hi, s_.is_boundary(mid)), 'split_at on a char boundary'):
+            raise PanicPath('panic', 'split_at: index is not a char boundary / out of range')
+        return Agg(None, [Ref(Loc(Cell(Str(s_.b, s_.lo, mid), 'split_at.0'))), Ref(Loc(Cell(Str(s_.b, mid, s_.hi), 'split_at.1')))])
+
     @M.reg('str::bytes')
     def str_bytes(ip, pc, args, dt):
         from models_coll import Seq, Window
@@ -429,6 +443,29 @@ def install(ctx):
             val = z3.If(inr, val * 10 + d, val)
         okc = z3.And(ln > start, alld, val < (1 << 64))
         return Enum('Result', z3.If(okc, 0, 1), {0: (S(val, 'u64'),), 1: (Opaque('ParseIntError'),)})
+
+
+class CharIndicesM(Model):
+    """str::char_indices() / chars() over a byte-level string (valid UTF-8): the cursor is a char boundary.  A non-ASCII char is
+    represented by some code >= 0x80 derived from its leading byte - enough for comparisons with ASCII chars, which is all the
+    parsers do"""
+
+    def __init__(self, s, pos, with_index=True):
+        self.s, self.pos, self.with_index = s, pos, with_index
+
+    def next(self, ip):
+        s = self.s
+        if not ip.path.branch(self.pos < s.hi, 'chars.next'):
+            return self, NONE
+        b = s.byte_at(self.pos)
+        ln = z3.If(b < 0x80, 1, z3.If(b < 0xE0, 2, z3.If(b < 0xF0, 3, 4)))
+        ch = S(z3.simplify(z3.If(b < 0x80, b, 0x80 + b)), 'char')
+        item = Agg(None, [S(z3.simplify(self.pos - s.lo), 'usize'), ch]) if self.with_index else ch
+        return CharIndicesM(s, z3.simplify(self.pos + ln), self.with_index), some(item)
+        yield
+
+    def ite(self, c, o):
+        return self
 
 
 class SplitM(Model):
